@@ -52,6 +52,9 @@ class HeapMixin:
 
     def bi_realloc(self, st, args, n):
         p, size = args
+        if isinstance(p, Opaque):
+            # pointer to a block the harness did not model: the result is a fresh block (old content not tracked)
+            return self.new_raw_block(st, size)
         if not isinstance(p, Ptr):
             raise Unsupported("realloc of %r" % (p,))
         if p.obj is None:
